@@ -1361,18 +1361,21 @@ class TransactionEvaluator:
             old_value = self._scope.get(var_name)
             self._scope[var_name] = item
 
-            # Check all if conditions
-            conditions_pass = all(self.evaluate(if_clause) for if_clause in comp.ifs)
+            # try/finally: a condition or the element may not be evaluable for an item, and
+            # exists() goes on after such a failure; the loop variable must not stay bound
+            try:
+                # Check all if conditions
+                conditions_pass = all(self.evaluate(if_clause) for if_clause in comp.ifs)
 
-            if conditions_pass:
-                # Recurse to next generator or evaluate element
-                self._eval_comprehension_loop(generators, index + 1, element_expr, result)
-
-            # Restore old scope value
-            if was_bound:
-                self._scope[var_name] = old_value
-            else:
-                self._scope.pop(var_name, None)
+                if conditions_pass:
+                    # Recurse to next generator or evaluate element
+                    self._eval_comprehension_loop(generators, index + 1, element_expr, result)
+            finally:
+                # Restore old scope value
+                if was_bound:
+                    self._scope[var_name] = old_value
+                else:
+                    self._scope.pop(var_name, None)
 
     def _eval_GeneratorExp(self, node: ast.GeneratorExp) -> Any:
         """Evaluate (expr for x in iter if cond).
